@@ -27,12 +27,16 @@ GX == Gate("X", <<>>, <<Q0>>, <<>>)
 
 \* spellings that equal a keyword of the lexer up to letter case, for every keyword class (Command, Modifier,
 \* DataType, KeywordToken): identifiers, because the lexer's keywords are case-sensitive.  (The harness sweeps ALL
-\* 67 keywords x {lower, Capitalised, UPPER} x 32 positions from the committed baseline spec/mc/C06_keyword_cases.ndjson.)
+\* 67 keywords x {lower, Capitalised, UPPER} x 33 positions, plus the special names, from the committed baseline spec/mc/C06_keyword_cases.ndjson.)
 KeywordLookAlikes == {"measure", "Declare", "halt", "jump-when", "Move",          \* commands
                       "dagger", "Controlled", "forked",                          \* modifiers
                       "bit", "Real", "integer",                                  \* data types
                       "matrix", "sharing", "nonblocking", "As", "Mut", "MUT", "pauli-sum", "offset"}   \* keyword tokens
-PlainNames    == {"ro", "Theta", "THETA", "a-b", "_x1", "Sin2", "x-1-y"} \cup KeywordLookAlikes
+\* spellings that equal, up to letter case, a name that is not a keyword but means something somewhere: the reserved
+\* pragma name EXTERN, standard gates, built-in waveforms, true (the harness sweeps all of them, harvested from the
+\* sources, in four spellings)
+SpecialLookAlikes == {"extern", "Extern", "cnot", "Swap", "Gaussian", "true"}
+PlainNames    == {"ro", "Theta", "THETA", "a-b", "_x1", "Sin2", "x-1-y"} \cup KeywordLookAlikes \cup SpecialLookAlikes
 ReservedNames == {"pi", "PI", "i", "I", "sin", "SIN", "Cos", "sqrt", "Exp", "cis"}
 Names == PlainNames \cup ReservedNames
 
